@@ -10,21 +10,6 @@ open PyVal
 
 /-! ### the format is decided once -/
 
-/-- what `_parse_pred` memoises on the first call -/
-structure Decided where
-  lay : BLayout
-  kw : Bool
-  f : PFmt
-
-def State.decidedAs (st : State) (d : Decided) : Prop :=
-  st.layout = some d.lay ∧ st.hasKw = d.kw ∧ st.fmt = some d.f
-
-/-- a wrapper that only knows the decided format, the generator state and the call style memo: no cached actions -/
-def State.core (st : State) : State :=
-  { rng := st.rng, method := st.method, layout := st.layout, hasKw := st.hasKw, fmt := st.fmt }
-
-def State.withCache (s st : State) : State := { s with prev := st.prev, safe := st.safe }
-
 theorem parseNot_frame (st st' : State) (f : PFmt) (as : List PyVal) (p : PyVal) (h1 : st'.rng = st.rng) (h2 : st'.hasKw = st.hasKw) :
     parseNot st' f as p = parseNot st f as p := by
   unfold parseNot; rw [h1, h2]
@@ -126,15 +111,6 @@ theorem predict_decides' (fx : Fixes) (L : Learner) (st : State) (arg : Arg) (r 
         exact ⟨⟨lay, st2.hasKw, f⟩, hl, rfl, hf⟩
       · cases h
 
-/-- a whole evaluation in which every call is made on a wrapper that has the format `d` decided beforehand: only the
-generator state, the call-style memo and the action cache are threaded from call to call -/
-def runFrozen (fx : Fixes) (L : Learner) (d : Decided) : State → List Arg → Except Err (List Result)
-  | _, [] => pure []
-  | st, a :: as => do
-    let (r, st') ← predict fx L { st with layout := some d.lay, hasKw := d.kw, fmt := some d.f } a
-    let rs ← runFrozen fx L d st' as
-    pure (r :: rs)
-
 theorem run_frozen' (fx : Fixes) (L : Learner) (d : Decided) (args : List Arg) :
     ∀ st : State, st.decidedAs d → run fx L st args = runFrozen fx L d st args := by
   induction args with
@@ -185,6 +161,94 @@ theorem predictCore_frame' (fx : Fixes) (L : Learner) (st : State) (sarg : Arg) 
     simp only
     rw [parse_frame fx { st with method := some m }]
     rfl
+
+/-! ### the executable splittings of `run` the driver evaluates; memo-aware learn -/
+
+theorem decided?_of (st : State) (d : Decided) (hd : st.decidedAs d) : st.decided? = some d := by
+  obtain ⟨h1, h2, h3⟩ := hd
+  cases d
+  simp_all [State.decided?]
+
+theorem run_eq_runSplit' (fx : Fixes) (L : Learner) (st : State) (args : List Arg) : run fx L st args = runSplit fx L st args := by
+  cases args with
+  | nil => rfl
+  | cons a as =>
+    cases hp : predict fx L st a with
+    | error e => simp [run, runSplit, hp, bind, Except.bind]
+    | ok v =>
+      obtain ⟨r, st'⟩ := v
+      obtain ⟨d, hd, hrun⟩ := history_format_decided_once' fx L st a as r st' hp
+      rw [hrun]
+      simp [runSplit, bind, Except.bind, hp, decided?_of st' d hd]
+
+theorem run_eq_runCore' (fx : Fixes) (L : Learner) (args : List Arg) : ∀ st : State, run fx L st args = runCore fx L st args := by
+  induction args with
+  | nil => intro st; rfl
+  | cons a as ih =>
+    intro st
+    unfold run runCore predict
+    simp only
+    by_cases hl : (prepare fx st a).1.layout.isSome = true
+    · rw [if_pos hl, ← predictCore_frame' fx L _ _ hl]
+      simp only [bind, Except.bind]
+      cases predictCore fx L (prepare fx st a).1 (prepare fx st a).2 with
+      | error e => rfl
+      | ok v => obtain ⟨r, st'⟩ := v; simp only [ih st']
+    · rw [if_neg hl]
+      simp only [bind, Except.bind]
+      cases predictCore fx L (prepare fx st a).1 (prepare fx st a).2 with
+      | error e => rfl
+      | ok v => obtain ⟨r, st'⟩ := v; simp only [ih st']
+
+theorem learnM_uniform' (batchable : Bool) (memo : Option Nat) (arg : Arg) (res : Result) (rw : PyVal)
+    (h : learnMemoOK batchable memo arg = true) :
+    (learnM batchable memo arg res rw).map Prod.fst = learn batchable arg res rw := by
+  unfold learnM learn
+  cases hk : res.kw <;> simp only [] <;> try rfl
+  rename_i r ks vs
+  cases arg <;> cases batchable <;> (rcases memo with _ | _ | _ | _ | n) <;> simp [learnMemoOK] at h <;>
+    simp only [Except.map, pure, Except.pure, bind, Except.bind, Bool.false_eq_true, if_false, if_true] <;>
+    (try rfl) <;>
+    (cases itemsE res.a <;> try rfl) <;> (cases itemsE rw <;> try rfl) <;> (cases itemsE res.p <;> try rfl) <;>
+    (rename_i ctxs _ A R P; cases hlr : learnRows 0 ctxs A R P ks vs <;> simp [hlr]) <;> (rename_i lc; by_cases he : lc = [] <;> simp_all)
+
+theorem learnM_switched_counterexample' :
+    (learnM false (some 1) (.batch [.int 0] [[.int 5]]) ⟨.list .tmp [.int 5], .list .tmp [.none], .dict .tmp [] []⟩ (.list .tmp [.int 1])).toOption.isNone = true ∧
+    (learn false (.batch [.int 0] [[.int 5]]) ⟨.list .tmp [.int 5], .list .tmp [.none], .dict .tmp [] []⟩ (.list .tmp [.int 1])).toOption.isSome = true := by
+  decide
+
+/-! ### one statement per format: parse, kwargs as finite maps in any key order, score -/
+
+theorem format_roundtrip_full' (fx : Fixes) (sp : Spec) (pol : Policy) (st : State) (cs : List PyVal) (rows : List (List PyVal))
+    (tup : Bool) (m : Option Nat)
+    (hinv : Inv sp true st) (hlen : cs.length = rows.length) (hne : rows ≠ [])
+    (hU : Unambiguous fx sp st (rowsOf pol cs rows) = true) (hm : ScoreInv (sp.layout != .single) m) :
+    Delivers (predictCore fx (scripted sp pol) st (.batch cs rows)) (wantBatch sp st.rng (rowsOf pol cs rows)) (stAfter sp true st) ∧
+    (sp.kw = true → sameKeys (rowsOf pol cs rows) = true → ∀ j r, (rowsOf pol cs rows)[j]? = some r →
+      kwEquiv (wantKw sp (rowsOf pol cs rows)).1 ((wantKw sp (rowsOf pol cs rows)).2.map (fun c => c.getD j .none)) r.1.kwKeys r.1.kwVals) ∧
+    (∀ acts, cs ≠ [] → acts.length = cs.length → (∀ c a x, (scoreOf pol c a x).isDict = false) →
+      ∃ v, score fx (some (scriptedScore pol (sp.layout != .single) tup)) m (.batch cs rows acts) =
+          .ok (v, if (sp.layout != .single) then 1 else 2) ∧ v.items = some (scoresOf pol cs rows acts)) :=
+  ⟨format_roundtrip_batch' fx sp pol st cs rows hinv hlen hne hU,
+   fun hk hs j r hj => kwargs_row_map' sp (rowsOf pol cs rows) hk hs j r hj,
+   fun acts hcs ha hd => (score_roundtrip' fx pol (sp.layout != .single) tup m hm).2 cs rows acts hcs hlen.symm ha hd⟩
+
+/-! ### has_score: exactly when the substring probe is wrong -/
+
+theorem has_score_wrong_iff' (p : ScoreProbe) :
+    hasScore (probeOf (.implemented p)) = false ↔ ∃ f, p = .raises f ∧ strContains f.msg "score" = true := by
+  cases p <;> simp [probeOf, hasScore]
+
+theorem has_score_never_for_missing' (k : ScoreKind) (h : ∀ p, k ≠ .implemented p) : hasScore (probeOf k) = false := by
+  have hi := has_score_iff' k (by intro f hk; exact absurd hk (h _))
+  cases hs : hasScore (probeOf k) with
+  | false => rfl
+  | true => obtain ⟨p, hp⟩ := hi.mp hs; exact absurd hp (h p)
+
+theorem has_score_substring_counterexample' :
+    hasScore (probeOf (.implemented (.raises ⟨false, "bad underscore in name"⟩))) = false ∧
+    hasScore (probeOf (.implemented (.raises ⟨false, "Scoreboard is missing"⟩))) = true := by
+  decide
 
 /-! ### `==` on nested tuples / lists -/
 
